@@ -475,7 +475,7 @@ func c09r2(rc *core.RC) {
 			return true
 		})
 		if idx < 3 {
-			rc.Unknown("decoder."+name+"/retry-sites", fd.Pos(), "found %d byte comparisons with a refill (expected one per remaining letter)", idx)
+			rc.Note("decoder."+name+"/retry-sites", fd.Pos(), "found %d byte comparisons with a refill of their own in this function: the literal reader is written in another form, which C09.R12 (flow-graph rule over every refill) decides", idx)
 		}
 	}
 }
@@ -1481,4 +1481,507 @@ func c09r11(rc *core.RC) {
 	if n < 4 {
 		rc.Unknown("decoder/advance-first-loops", token.NoPos, "found %d refilling loops that begin with s.cursor++ (floatBytes, intDecoder ×2, uintDecoder expected)", n)
 	}
+}
+
+// ---- C09.R12 the byte a refill delivers at the cursor is examined before the cursor moves past it ----
+
+// When the sentinel NUL under the cursor turns out to be the end of the window and s.read()
+// succeeds, the cursor now points at the first byte of the new piece, which no code has looked at.
+// Every path from the success edge of a refill must classify that byte (s.char(), s.buf[s.cursor],
+// char(p, cursor), a switch on it, or a hand-over of the stream to another reader) before the cursor
+// advances beyond it; otherwise one byte of input is accepted unseen whenever a chunk boundary falls
+// there. The rule walks go/cfg from every success edge, tracking for s.cursor and each local cursor
+// copy its distance from the refilled position.
+type refillWalk struct {
+	rc      *core.RC
+	info    *types.Info
+	cf      *core.FuncCFG
+	locals  map[types.Object]bool // locals that hold a copy of s.cursor somewhere in the function
+	fn      string
+	visited map[string]bool
+	bad     token.Pos
+	badMsg  string
+	steps   int
+	// argExamines: handing the cursor to a call (skipWhiteSpace(buf, cursor), d.dec.Decode(ctx, cursor, …))
+	// counts as examining the byte there
+	argExamines bool
+}
+
+const refillCursorKey = "s.cursor"
+
+func isStreamCursor(info *types.Info, e ast.Expr) bool {
+	f := core.FieldOf(info, e)
+	return f != nil && f.Name() == "cursor" && f.Pkg() != nil && strings.HasSuffix(f.Pkg().Path(), "internal/decoder")
+}
+
+func isStreamValue(info *types.Info, e ast.Expr) bool {
+	tv, ok := info.Types[e]
+	if !ok || tv.Type == nil {
+		return false
+	}
+	t := tv.Type
+	if p, ok := t.(*types.Pointer); ok {
+		t = p.Elem()
+	}
+	n, ok := t.(*types.Named)
+	return ok && n.Obj().Name() == "Stream" && n.Obj().Pkg() != nil && strings.HasSuffix(n.Obj().Pkg().Path(), "internal/decoder")
+}
+
+// cursorVar names the cursor variable an expression denotes ("s.cursor" or a tracked local) with a
+// constant offset: cursor, cursor+1, s.cursor-1 …
+func (w *refillWalk) cursorVar(e ast.Expr) (string, int, bool) {
+	e = core.Unparen(e)
+	if be, ok := e.(*ast.BinaryExpr); ok && (be.Op == token.ADD || be.Op == token.SUB) {
+		if k, isConst := core.ConstInt(w.info, be.Y); isConst {
+			if v, off, ok := w.cursorVar(be.X); ok {
+				if be.Op == token.SUB {
+					k = -k
+				}
+				return v, off + int(k), true
+			}
+		}
+		return "", 0, false
+	}
+	if c, ok := e.(*ast.CallExpr); ok && len(c.Args) == 1 {
+		// conversions int(cursor)
+		if tv, isType := w.info.Types[c.Fun]; isType && tv.IsType() {
+			return w.cursorVar(c.Args[0])
+		}
+	}
+	if isStreamCursor(w.info, e) {
+		return refillCursorKey, 0, true
+	}
+	if id, ok := e.(*ast.Ident); ok {
+		if o := w.info.Uses[id]; o != nil && w.locals[o] {
+			return "l:" + id.Name, 0, true
+		}
+		if o := w.info.Defs[id]; o != nil && w.locals[o] {
+			return "l:" + id.Name, 0, true
+		}
+	}
+	return "", 0, false
+}
+
+type refillEvent struct {
+	pos  token.Pos
+	kind int // 0 examine, 1 move, 2 copy, 3 kill, 4 escape, 5 read, 6 return
+	v    string
+	src  string
+	k    int
+}
+
+func (w *refillWalk) events(n ast.Node) []refillEvent {
+	var evs []refillEvent
+	info := w.info
+	skip := map[ast.Node]bool{}
+	ast.Inspect(n, func(m ast.Node) bool {
+		if m == nil || skip[m] {
+			return false
+		}
+		switch x := m.(type) {
+		case *ast.FuncLit:
+			return false
+		case *ast.ReturnStmt:
+			evs = append(evs, refillEvent{pos: x.End(), kind: 6})
+		case *ast.IncDecStmt:
+			if v, _, ok := w.cursorVar(x.X); ok {
+				d := 1
+				if x.Tok == token.DEC {
+					d = -1
+				}
+				evs = append(evs, refillEvent{pos: x.Pos(), kind: 1, v: v, k: d})
+				return false
+			}
+		case *ast.AssignStmt:
+			// statForRetry / stat
+			if len(x.Rhs) == 1 && len(x.Lhs) == 3 {
+				if c, ok := core.Unparen(x.Rhs[0]).(*ast.CallExpr); ok {
+					name := core.CalleeName(info, c)
+					if name == "decoder.Stream.stat" || name == "decoder.Stream.statForRetry" {
+						if name == "decoder.Stream.statForRetry" {
+							evs = append(evs, refillEvent{pos: x.Pos(), kind: 1, v: refillCursorKey, k: -1})
+						}
+						if v, _, ok := w.cursorVar(x.Lhs[1]); ok {
+							evs = append(evs, refillEvent{pos: x.Pos() + 1, kind: 2, v: v, src: refillCursorKey})
+						}
+						return false
+					}
+				}
+			}
+			if len(x.Lhs) == len(x.Rhs) {
+				for i, l := range x.Lhs {
+					v, off, ok := w.cursorVar(l)
+					if !ok || off != 0 {
+						continue
+					}
+					skip[l] = true
+					switch x.Tok {
+					case token.ADD_ASSIGN, token.SUB_ASSIGN:
+						if k, isConst := core.ConstInt(info, x.Rhs[i]); isConst {
+							if x.Tok == token.SUB_ASSIGN {
+								k = -k
+							}
+							evs = append(evs, refillEvent{pos: x.Pos(), kind: 1, v: v, k: int(k)})
+						} else {
+							evs = append(evs, refillEvent{pos: x.Pos(), kind: 3, v: v})
+						}
+					case token.ASSIGN, token.DEFINE:
+						if sv, soff, isCur := w.cursorVar(x.Rhs[i]); isCur {
+							evs = append(evs, refillEvent{pos: x.End(), kind: 2, v: v, src: sv, k: soff})
+							skip[x.Rhs[i]] = true
+						} else {
+							evs = append(evs, refillEvent{pos: x.End(), kind: 3, v: v})
+						}
+					default:
+						evs = append(evs, refillEvent{pos: x.Pos(), kind: 3, v: v})
+					}
+				}
+			}
+		case *ast.IndexExpr:
+			if v, off, ok := w.cursorVar(x.Index); ok {
+				evs = append(evs, refillEvent{pos: x.Pos(), kind: 0, v: v, k: off})
+			}
+		case *ast.SliceExpr:
+			// buf[cursor : cursor+n] handed to a classifier (unicodeToRune, bytes.Equal …)
+			if x.Low != nil && x.High != nil {
+				if v, off, ok := w.cursorVar(x.Low); ok {
+					evs = append(evs, refillEvent{pos: x.Pos(), kind: 0, v: v, k: off})
+				}
+			}
+		case *ast.CallExpr:
+			name := core.CalleeName(info, x)
+			switch name {
+			case "decoder.Stream.char":
+				evs = append(evs, refillEvent{pos: x.Pos(), kind: 0, v: refillCursorKey})
+				return false
+			case "decoder.Stream.read":
+				evs = append(evs, refillEvent{pos: x.Pos(), kind: 5})
+				return false
+			case "decoder.char":
+				if len(x.Args) == 2 {
+					if v, off, ok := w.cursorVar(x.Args[1]); ok {
+						evs = append(evs, refillEvent{pos: x.Pos(), kind: 0, v: v, k: off})
+					}
+				}
+				return false
+			case "decoder.Stream.totalOffset", "decoder.Stream.bufptr", "decoder.Stream.ReadErr", "decoder.Stream.stat", "decoder.Stream.statForRetry":
+				return false
+			}
+			if tv, isType := info.Types[x.Fun]; isType && tv.IsType() {
+				return true
+			}
+			if _, isBuiltin := info.Uses[calleeIdent(x.Fun)].(*types.Builtin); isBuiltin {
+				return true
+			}
+			if w.argExamines {
+				for _, a := range x.Args {
+					if v, off, ok := w.cursorVar(a); ok {
+						evs = append(evs, refillEvent{pos: a.Pos(), kind: 0, v: v, k: off})
+					}
+				}
+			}
+			// the stream handed to other code (receiver or argument): that code examines what is under the cursor
+			hands := false
+			if sel, ok := core.Unparen(x.Fun).(*ast.SelectorExpr); ok && isStreamValue(info, sel.X) {
+				hands = true
+			}
+			for _, a := range x.Args {
+				if isStreamValue(info, a) {
+					hands = true
+				}
+			}
+			if hands {
+				evs = append(evs, refillEvent{pos: x.Pos(), kind: 4})
+			}
+		}
+		return true
+	})
+	sort.SliceStable(evs, func(i, j int) bool { return evs[i].pos < evs[j].pos })
+	return evs
+}
+
+func calleeIdent(e ast.Expr) *ast.Ident {
+	switch x := core.Unparen(e).(type) {
+	case *ast.Ident:
+		return x
+	case *ast.SelectorExpr:
+		return x.Sel
+	}
+	return nil
+}
+
+func refillStateKey(b *cfg.Block, i int, d map[string]int) string {
+	ks := make([]string, 0, len(d))
+	for k := range d {
+		ks = append(ks, k)
+	}
+	sort.Strings(ks)
+	s := fmt.Sprintf("%d:%d", b.Index, i)
+	for _, k := range ks {
+		s += fmt.Sprintf("|%s=%d", k, d[k])
+	}
+	return s
+}
+
+// run walks from node index i of block b with the given distances; it records the first violation.
+func (w *refillWalk) run(b *cfg.Block, i int, d map[string]int) {
+	if w.bad != token.NoPos || b == nil {
+		return
+	}
+	key := refillStateKey(b, i, d)
+	if w.visited[key] {
+		return
+	}
+	w.visited[key] = true
+	w.steps++
+	if w.steps > 20000 {
+		return
+	}
+	cur := map[string]int{}
+	for k, v := range d {
+		cur[k] = v
+	}
+	for ; i < len(b.Nodes); i++ {
+		for _, ev := range w.events(b.Nodes[i]) {
+			switch ev.kind {
+			case 0:
+				dist, tracked := cur[ev.v]
+				if !tracked {
+					continue
+				}
+				at := dist + ev.k
+				if at <= 0 {
+					if at == 0 {
+						return // examined
+					}
+					continue // an earlier byte looked at again: keep walking
+				}
+				if ev.k == 0 {
+					w.bad = ev.pos
+					w.badMsg = fmt.Sprintf("the next byte is examined with the cursor (%s) %d byte(s) further on: the byte at the starting position is never looked at", strings.TrimPrefix(ev.v, "l:"), dist)
+					return
+				}
+			case 1:
+				if _, tracked := cur[ev.v]; tracked {
+					cur[ev.v] += ev.k
+					if cur[ev.v] > 4 || cur[ev.v] < -4 {
+						return
+					}
+				}
+			case 2:
+				if sd, tracked := cur[ev.src]; tracked {
+					cur[ev.v] = sd + ev.k
+				} else {
+					delete(cur, ev.v)
+				}
+			case 3:
+				delete(cur, ev.v)
+				if len(cur) == 0 {
+					return
+				}
+			case 4:
+				if dist, tracked := cur[refillCursorKey]; tracked && dist > 0 {
+					w.bad = ev.pos
+					w.badMsg = fmt.Sprintf("the stream is handed on with s.cursor %d byte(s) further on: the byte at the starting position is never looked at", dist)
+				}
+				return
+			case 5, 6:
+				return
+			}
+		}
+	}
+	for _, s := range b.Succs {
+		w.run(s, 0, cur)
+	}
+}
+
+func c09r12(rc *core.RC) {
+	p := rc.P
+	sites := 0
+	for _, fd := range p.Funcs("decoder") {
+		if fd.Body == nil {
+			continue
+		}
+		info := p.Info(fd)
+		fn := p.FuncName(fd)
+		if fn == "decoder.(*Stream).read" || fn == "decoder.Stream.read" {
+			continue
+		}
+		var reads []*ast.CallExpr
+		ast.Inspect(fd.Body, func(m ast.Node) bool {
+			if _, isLit := m.(*ast.FuncLit); isLit {
+				return false
+			}
+			if c, ok := m.(*ast.CallExpr); ok && core.CalleeName(info, c) == "decoder.Stream.read" {
+				reads = append(reads, c)
+			}
+			return true
+		})
+		if len(reads) == 0 {
+			continue
+		}
+		rc.Touch(fn)
+		cf := core.BuildCFG(fd.Body, info)
+		// locals that ever receive a copy of s.cursor
+		locals := map[types.Object]bool{}
+		ast.Inspect(fd.Body, func(m ast.Node) bool {
+			as, ok := m.(*ast.AssignStmt)
+			if !ok {
+				return true
+			}
+			if len(as.Rhs) == 1 && len(as.Lhs) == 3 {
+				if c, ok := core.Unparen(as.Rhs[0]).(*ast.CallExpr); ok {
+					if n := core.CalleeName(info, c); n == "decoder.Stream.stat" || n == "decoder.Stream.statForRetry" {
+						if o := core.ObjOf(info, as.Lhs[1]); o != nil {
+							locals[o] = true
+						}
+					}
+				}
+			}
+			if len(as.Lhs) == len(as.Rhs) {
+				for i, r := range as.Rhs {
+					if isStreamCursor(info, r) {
+						if o := core.ObjOf(info, as.Lhs[i]); o != nil {
+							locals[o] = true
+						}
+					}
+				}
+			}
+			return true
+		})
+		for k, call := range reads {
+			sites++
+			rc.CallSites++
+			key := fmt.Sprintf("%s/refill#%d examined-before-advance", fn, k+1)
+			blk, idx := cf.BlockOf(call)
+			if blk == nil {
+				rc.Unknown(key, call.Pos(), "refill not found in the flow graph")
+				continue
+			}
+			if !cf.Reachable(blk) {
+				rc.Note(key, call.Pos(), "unreachable")
+				continue
+			}
+			node := blk.Nodes[idx]
+			// which successor is taken when the refill succeeded?
+			var starts []*cfg.Block
+			startIdx := 0
+			cond, isCond := node.(ast.Expr)
+			if isCond && idx == len(blk.Nodes)-1 && len(blk.Succs) == 2 {
+				pol, ok := readPolarity(info, cond, call)
+				if !ok {
+					rc.Unknown(key, call.Pos(), "the condition %s does not tell on which branch the refill succeeded", types.ExprString(cond))
+					continue
+				}
+				if pol {
+					starts = []*cfg.Block{blk.Succs[0]}
+				} else {
+					starts = []*cfg.Block{blk.Succs[1]}
+				}
+			} else if es, isStmt := node.(*ast.ExprStmt); isStmt && core.Unparen(es.X) == ast.Expr(call) {
+				starts = []*cfg.Block{blk}
+				startIdx = idx + 1
+			} else {
+				rc.Unknown(key, call.Pos(), "the result of the refill is used in a form this rule does not follow")
+				continue
+			}
+			first := 0
+			switch refillContext(info, fd.Body, call) {
+			case "after-failed-refill":
+				rc.Note(key, call.Pos(), "retry in the NUL clause of `switch s.skipWhiteSpace()`: skipWhiteSpace returns NUL only after its own refill failed, so this one succeeds only for a reader that failed and then recovered, and the call reports that failure (C09.R3)")
+				continue
+			case "escaped":
+				// the refilled position holds the byte behind a backslash: it is consumed as part of the
+				// escape (C09.R8; which letters are legal is C05.R1), so exactly one byte may be passed
+				first = -1
+			}
+			w := &refillWalk{rc: rc, info: info, cf: cf, locals: locals, fn: fn, visited: map[string]bool{}}
+			init := map[string]int{refillCursorKey: first}
+			for o := range locals {
+				init["l:"+o.Name()] = first
+			}
+			for _, s := range starts {
+				w.run(s, startIdx, init)
+			}
+			if w.bad != token.NoPos {
+				rc.Bad(key, w.bad, "after the refill at %s succeeds (its first new byte is at the cursor), %s — a byte that arrives at a read boundary is accepted whatever it is", p.Fset.Position(call.Pos()).String()[strings.LastIndex(p.Fset.Position(call.Pos()).String(), "/")+1:], w.badMsg)
+			} else {
+				rc.OK(key, call.Pos(), "on every path from the success edge the byte under the cursor is examined (or the stream handed on at that position) before the cursor passes it")
+			}
+		}
+	}
+	if sites < 40 {
+		rc.Unknown("decoder/refill-sites", token.NoPos, "found %d refill sites (50 confirmed)", sites)
+	}
+}
+
+// readPolarity: on which edge of cond did the call return true? (true = then-edge)
+func readPolarity(info *types.Info, cond ast.Expr, call *ast.CallExpr) (bool, bool) {
+	cond = core.Unparen(cond)
+	switch x := cond.(type) {
+	case *ast.CallExpr:
+		if x == call {
+			return true, true
+		}
+	case *ast.UnaryExpr:
+		if x.Op == token.NOT {
+			if pol, ok := readPolarity(info, x.X, call); ok {
+				// !read(): success on the false edge, but only if the operand is the call itself
+				if core.Unparen(x.X) == ast.Expr(call) {
+					return !pol, true
+				}
+			}
+		}
+	case *ast.BinaryExpr:
+		if x.Op == token.LAND {
+			// a && read(): the then-edge implies read() returned true
+			for _, side := range []ast.Expr{x.X, x.Y} {
+				if pol, ok := readPolarity(info, side, call); ok && pol {
+					return true, true
+				}
+			}
+		}
+		if x.Op == token.LOR {
+			// a || !read(): the else-edge implies read() returned true
+			for _, side := range []ast.Expr{x.X, x.Y} {
+				if pol, ok := readPolarity(info, side, call); ok && !pol {
+					return false, true
+				}
+			}
+		}
+	}
+	return false, false
+}
+
+// refillContext classifies the switch clause a refill sits in: "escaped" when the innermost
+// enclosing case clause is the backslash clause of a byte switch, "after-failed-refill" when it is
+// the NUL clause of a switch on s.skipWhiteSpace().
+func refillContext(info *types.Info, body *ast.BlockStmt, call *ast.CallExpr) string {
+	path := core.PathTo(body, call)
+	for i := len(path) - 1; i >= 0; i-- {
+		cc, ok := path[i].(*ast.CaseClause)
+		if !ok {
+			continue
+		}
+		has := func(b int64) bool {
+			for _, l := range cc.List {
+				if v, isConst := core.ConstInt(info, l); isConst && v == b {
+					return true
+				}
+			}
+			return false
+		}
+		if has('\\') && len(cc.List) == 1 {
+			return "escaped"
+		}
+		if has(0) && len(cc.List) == 1 && i >= 2 {
+			if sw, isSwitch := path[i-2].(*ast.SwitchStmt); isSwitch && sw.Tag != nil {
+				if c, isCall := core.Unparen(sw.Tag).(*ast.CallExpr); isCall && core.CalleeName(info, c) == "decoder.Stream.skipWhiteSpace" {
+					return "after-failed-refill"
+				}
+			}
+		}
+		return ""
+	}
+	return ""
 }
